@@ -7,6 +7,7 @@ import (
 	"runtime"
 	"strconv"
 	"strings"
+	"sync"
 
 	"github.com/robertkrimen/otto"
 	"ottoverif/h"
@@ -114,6 +115,11 @@ func runTok(vm *otto.Otto, src string) string {
 		}
 		return "err"
 	}
+	if v.IsObject() {
+		// no Go-level ToString of objects: with no active scope the stack-depth limit does not apply
+		// and a self-containing array overflows the Go stack (a C02 matter, not C17's)
+		return "v.object." + v.Class()
+	}
 	s, _ := v.ToString()
 	return "v." + strconv.FormatUint(fnv1a(s), 36)
 }
@@ -219,34 +225,69 @@ func genC17(c *h.Ctx) {
 			}
 		}
 	}
-	nS := c.N(300, 20000)
-	for i := 0; i < nS; i++ {
-		g := newJSGen(c.Rng.Fork())
-		g.allowDev = c.Rng.Chance(15)
-		src := g.history()
-		depth := 1 + c.Rng.Intn(3)
-		if l, ok := lineS(depth, src); ok {
-			c.Add(l, "S:random", fmt.Sprintf("S:depth%d", depth))
-			for _, k := range g.features() {
-				c.Dist["S:feature:"+k]++
-			}
-		} else {
-			c.Dist["S:skipped"]++
-		}
+	// random part: lines are computed in parallel (each from its own forked PRNG) and added in order
+	type job struct {
+		r        *h.Rng
+		kind     byte
+		depth    int
+		side     int
+		allowDev bool
+		line     string
+		keys     []string
+		feats    []string
 	}
-	nI := c.N(1500, 100000)
+	var jobs []*job
+	nS := c.N(500, 12000)
+	for i := 0; i < nS; i++ {
+		jobs = append(jobs, &job{r: c.Rng.Fork(), kind: 'S', depth: 1 + c.Rng.Intn(3), allowDev: c.Rng.Chance(15)})
+	}
+	nI := c.N(2500, 60000)
 	for i := 0; i < nI; i++ {
-		g := newJSGen(c.Rng.Fork())
-		hsrc := g.history()
-		msrc := g.mutation()
 		depth := 1 + c.Rng.Intn(3)
-		side := c.Rng.Intn(depth + 1)
-		exp := expI(hsrc, msrc)
-		if !strings.HasPrefix(exp, "same:") {
-			c.Dist["I:skipped"]++
+		jobs = append(jobs, &job{r: c.Rng.Fork(), kind: 'I', depth: depth, side: c.Rng.Intn(depth + 1)})
+	}
+	ch := make(chan *job, 256)
+	var wg sync.WaitGroup
+	for w := 0; w < runtime.NumCPU(); w++ {
+		wg.Add(1)
+		go func() {
+			defer wg.Done()
+			for j := range ch {
+				g := newJSGen(j.r)
+				if j.kind == 'S' {
+					g.allowDev = j.allowDev
+					src := g.history()
+					if l, ok := lineS(j.depth, src); ok {
+						j.line = l
+						j.keys = []string{"S:random", fmt.Sprintf("S:depth%d", j.depth)}
+						j.feats = g.features()
+					}
+				} else {
+					hsrc := g.history()
+					msrc := g.mutation()
+					exp := expI(hsrc, msrc)
+					if strings.HasPrefix(exp, "same:") {
+						j.line = fmt.Sprintf("I %d %d %s %s exp:%s", j.depth, j.side, hex.EncodeToString([]byte(hsrc)), hex.EncodeToString([]byte(msrc)), exp)
+						j.keys = []string{"I:random", fmt.Sprintf("I:depth%d:side%d", j.depth, j.side)}
+						j.feats = g.features()
+					}
+				}
+			}
+		}()
+	}
+	for _, j := range jobs {
+		ch <- j
+	}
+	close(ch)
+	wg.Wait()
+	for _, j := range jobs {
+		if j.line == "" {
+			c.Dist[string(j.kind)+":skipped"]++
 			continue
 		}
-		c.Add(fmt.Sprintf("I %d %d %s %s exp:%s", depth, side, hex.EncodeToString([]byte(hsrc)), hex.EncodeToString([]byte(msrc)), exp),
-			"I:random", fmt.Sprintf("I:depth%d:side%d", depth, side))
+		c.Add(j.line, j.keys...)
+		for _, k := range j.feats {
+			c.Dist[string(j.kind)+":feature:"+k]++
+		}
 	}
 }
